@@ -55,7 +55,7 @@ struct Runner {
       const Op& o = prog[i];
       switch (o.k) {
         case 'N': obj.impl_.notify(static_cast<int>(o.a)); break;
-        case 'W': obj.impl_.wait(static_cast<int>(o.a)); S.result("wait", 1); break;
+        case 'W': obj.impl_.wait(static_cast<int>(o.a)); S.result("wait", obj.impl_.intrusiveStatus().load()); break;   // no hook point in between: exact
         case 'F': {
           bool r = obj.impl_.waitFor(static_cast<int>(o.a), std::chrono::duration<double>(o.b ? 1000.0 : 0.0));
           S.result("waitFor", r ? 1 : 0);
